@@ -1,5 +1,7 @@
 import Lean.Data.Json
 import Glom.Model.C17Env
+import Glom.Spec.C17Streams
+import Glom.Model.C17Boltons
 /-
   C17 driver: one JSON case in, one JSON verdict out.
 
@@ -19,11 +21,25 @@ import Glom.Model.C17Env
      "impl":{"steps":[T | {"first":…,"pulls":n} …], "src_after":…}}
     a "take" step creates the iterator of its pipe at its first use and resumes it later; "all"/"first"
     steps (the only ones of a dict spec) run a fresh iterator; the sequence ends at the first exception
+  Streams case (several LIVE iterators, made from one spec object and from specs derived from it, pulled in
+  interleaved order; every stream has its own source object):
+    {"kind":"streams", "base":{"sub":name,"sentinel":…,"ops":[op…]}, "derived":[{"from":i,"ops":[op…]}…],
+     "streams":[{"spec":i,"src":…,"mode":"take"|"all"|{"first":key}}…],
+     "events":[["open",s]|["next",s]|["run",s]…],
+     "impl":{"events":[{"open":"ok"|{"raised":cls},"pulls":n} | {"item":V,"pulls":n} | {"end":"exhausted"|{"raised":cls},"pulls":n}
+                       | {"dead":true} | T | {"first":…,"pulls":n} …]}}
+    spec 0 is the base spec, spec j+1 = spec derived[j].from extended by derived[j].ops; "pulls" counts the items
+    taken from the stream's OWN source
+  Boltons case (the code-shaped models of boltons' helpers in Model/C17Boltons.lean against the installed boltons,
+  called directly on an instrumented iterator):
+    {"kind":"boltons", "op":op (chunked | windowed | split | unique, arguments as in a stage), "src":…, "k":n,
+     "impl":{"init":"ok"|{"raised":cls}, "init_pulls":n, "events":[{"item":V,"pulls":n} | {"end":"exhausted"|{"raised":cls},"pulls":n} …]}}
   Invoke case:
     {"kind":"invoke", "p":[call…], "e1":[call…], "e2":[call…], "target":V,
      "impl":{"repr_same":b, "before":R, "after":R, "reused":R, "fresh":R}}
     R = {"ok":[[V…],[[k,V]…]]} | {"raised":cls}
-  V = null | {"i":n} | {"l":[V…]} | {"t":[V…]}
+  V = null | {"i":n} | {"l":[V…]} | {"t":[V…]} | {"b":bool} | {"f":n} (the float n.0) | {"s":str} |
+      {"o":cls} (instance of a user class) | {"ref":id,"v":V} (THE object number id: same id = same Python object)
 -/
 namespace Glom.C17.Driver
 open Lean Glom.C17
@@ -40,6 +56,15 @@ partial def vOfJson (j : Json) : Except String V :=
     else if let .ok _ := j.getObjVal? "x" then .ok outOfDomain
     else if let .ok (.arr a) := j.getObjVal? "l" then do return .list (← a.toList.mapM vOfJson)
     else if let .ok (.arr a) := j.getObjVal? "t" then do return .tup (← a.toList.mapM vOfJson)
+    else if let .ok b := j.getObjValAs? Bool "b" then .ok (.bool b)
+    else if let .ok i := j.getObjValAs? Int "f" then .ok (.flt i)
+    else if let .ok s := j.getObjValAs? String "s" then .ok (.str s)
+    else if let .ok c := j.getObjValAs? Nat "o" then .ok (.obj c)
+    else if let .ok n := j.getObjValAs? Nat "ref" then do
+      -- an identity is given to objects only: floats, strings, tuples, lists, instances
+      match ← vOfJson (← j.getObjVal? "v") with
+      | .none | .int _ | .bool _ | .ref _ _ => .error s!"bad V {j.compress}"
+      | v => return .ref n v
     else .error s!"bad V {j.compress}"
   | _ => .error s!"bad V {j.compress}"
 
@@ -48,6 +73,11 @@ partial def vToJson : V → Json
   | .int i => Json.mkObj [("i", toJson i)]
   | .list xs => Json.mkObj [("l", Json.arr (xs.map vToJson).toArray)]
   | .tup xs => Json.mkObj [("t", Json.arr (xs.map vToJson).toArray)]
+  | .bool b => Json.mkObj [("b", b)]
+  | .flt i => Json.mkObj [("f", toJson i)]
+  | .str s => Json.mkObj [("s", s)]
+  | .obj c => Json.mkObj [("o", c)]
+  | .ref n v => Json.mkObj [("ref", n), ("v", vToJson v)]
 
 def arr (j : Json) : Except String (List Json) :=
   match j with
@@ -56,39 +86,59 @@ def arr (j : Json) : Except String (List Json) :=
 
 /-! ### the catalogue of user callables (Python side: harness/props/c17.py `CATALOGUE`) -/
 
-def intFn (g : Int → V) : Fn := fun x =>
-  match x with
-  | .int i => .ok (g i)
+/-- a function of numbers (`x + 1`, `x % 2` …): ints and bools give ints, floats give floats;
+    anything else raises TypeError.  The result is a new object (no identity). -/
+def numFn (g : Int → Int) : Fn := fun x =>
+  match x.strip with
+  | .int i => .ok (.int (g i))
+  | .bool b => .ok (.int (g (if b then 1 else 0)))
+  | .flt i => .ok (.flt (g i))
   | _ => .error "TypeError"
 
 def catalogue (name : String) : Option Fn :=
   match name with
   | "T" => some (fun x => .ok x)
-  | "inc" => some (intFn (fun i => .int (i + 1)))
-  | "dbl" => some (fun x => match x with
+  | "inc" => some (numFn (· + 1))
+  | "dbl" => some (fun x => match x.strip with
       | .int i => .ok (.int (i * 2))
+      | .bool b => .ok (.int (if b then 2 else 0))
+      | .flt i => .ok (.flt (i * 2))
+      | .str s => .ok (.str (s ++ s))
       | .list xs => .ok (.list (xs ++ xs))
       | .tup xs => .ok (.tup (xs ++ xs))
-      | .none => .error "TypeError")
-  | "neg" => some (intFn (fun i => .int (-i)))
-  | "mod2" => some (intFn (fun i => .int (i % 2)))
-  | "mod3" => some (intFn (fun i => .int (i % 3)))
-  | "lt3" => some (intFn (fun i => .int (if i < 3 then 1 else 0)))
+      | _ => .error "TypeError")
+  | "neg" => some (numFn (fun i => -i))
+  | "mod2" => some (numFn (· % 2))
+  | "mod3" => some (numFn (· % 3))
+  | "lt3" => some (fun x => match x.strip.num with
+      | some i => .ok (.int (if i < 3 then 1 else 0))
+      | none => .error "TypeError")
   | "wrap" => some (fun x => .ok (.list [x, x]))
-  | "rng" => some (intFn (fun i => .list ((List.range (i % 3).toNat).map (fun (n : Nat) => V.int (Int.ofNat n)))))
+  | "rng" => some (fun x => match x.strip with
+      | .flt _ => .error "TypeError"
+      | y => match y.num with
+        | some i => .ok (.list ((List.range (i % 3).toNat).map (fun (n : Nat) => V.int (Int.ofNat n))))
+        | none => .error "TypeError")
   | "pair" => some (fun x => .ok (.tup [x, .int 0]))
-  | "length" => some (fun x => match x with
+  | "length" => some (fun x => match x.strip with
       | .list xs => .ok (.int xs.length)
       | .tup xs => .ok (.int xs.length)
+      | .str s => .ok (.int s.length)
       | _ => .error "TypeError")
-  | "head" => some (fun x => match x with
+  | "head" => some (fun x => match x.strip with
       | .list (y :: _) => .ok y
       | .tup (y :: _) => .ok y
+      | .str s => (match s.toList with | c :: _ => .ok (.str (String.singleton c)) | [] => .error "PathAccessError")
       | _ => .error "PathAccessError")
-  | "bad3" => some (fun x => if x == V.int 3 then .error "ValueError" else .ok x)
+  | "bad3" => some (fun x => match x.pyEqAtom (.int 3) with
+      | .ok true => .error "ValueError"
+      | .ok false => .ok x
+      | .error e => .error e)
   | "none" => some (fun _ => .ok .none)
   | "zero" => some (fun _ => .ok (.int 0))
   | "one" => some (fun _ => .ok (.int 1))
+  | "tofloat" => some (fun x => match x with | .int i => .ok (.flt i) | _ => .ok x)
+  | "tobool" => some (fun x => match x with | .int i => .ok (.bool (i != 0)) | _ => .ok x)
   | _ => none
 
 def baseCatalogue (name : String) : Option BaseFn :=
@@ -401,6 +451,148 @@ def runReuse (j : Json) : Except String Json := do
     ("model", Json.mkObj [("steps", Json.arr (mObs.map stepObsToJson).toArray), ("src_after", afterToJson (src.after mPos r))]),
     ("branch", s!"reuse-{form}-{mObs.length}-{lastName}"), ("why", why)]
 
+/-! ### several live streams -/
+
+def evObsToJson : EvObs → Json
+  | .opened p => Json.mkObj [("open", "ok"), ("pulls", p)]
+  | .openErr e p => Json.mkObj [("open", Json.mkObj [("raised", e)]), ("pulls", p)]
+  | .item v p => Json.mkObj [("item", vToJson v), ("pulls", p)]
+  | .eof p => Json.mkObj [("end", "exhausted"), ("pulls", p)]
+  | .err e p => Json.mkObj [("end", Json.mkObj [("raised", e)]), ("pulls", p)]
+  | .ran o => takeToJson o
+  | .first o p => Json.mkObj [("first", firstToJson o), ("pulls", p)]
+  | .dead => Json.mkObj [("dead", true)]
+
+def evObsOfJson (e : Ev) (j : Json) : Except String EvObs := do
+  if let .ok true := j.getObjValAs? Bool "dead" then return .dead
+  match e with
+  | .open _ _ _ =>
+    let p ← j.getObjValAs? Nat "pulls"
+    match ← j.getObjVal? "open" with
+    | .str "ok" => return .opened p
+    | o => return .openErr (← o.getObjValAs? String "raised") p
+  | .next _ =>
+    let p ← j.getObjValAs? Nat "pulls"
+    if let .ok v := j.getObjVal? "item" then return .item (← itemOfJson v) p
+    match ← j.getObjVal? "end" with
+    | .str "exhausted" => return .eof p
+    | o => return .err (← o.getObjValAs? String "raised") p
+  | .all _ _ _ => return .ran (← takeOfJson j)
+  | .first _ _ _ _ => return .first (← firstOfJson (← j.getObjVal? "first")) (← j.getObjValAs? Nat "pulls")
+
+def evAgree (e : Ev) (a b : EvObs) : Bool :=
+  match e, a, b with
+  | _, .opened p, .opened q => p == q
+  | _, .openErr x p, .openErr y q => x == y && p == q
+  | _, .item v p, .item w q => v == w && p == q
+  | _, .eof p, .eof q => p == q
+  | _, .err x p, .err y q => x == y && p == q
+  | _, .dead, .dead => true
+  | _, .ran x, .ran y => stepAgree .all (.run x) (.run y)
+  | .first _ _ _ key, .first x p, .first y q => stepAgree (.first key) (.first x p) (.first y q)
+  | _, _, _ => false
+
+def runStreams (j : Json) : Except String Json := do
+  let baseKinds ← pipeOfJson (← j.getObjVal? "base")
+  let derivedJ ← arr (← j.getObjVal? "derived")
+  let mut specs : Array (List Kind) := #[baseKinds]
+  for d in derivedJ do
+    let from_ ← d.getObjValAs? Nat "from"
+    let ops ← (← arr (← d.getObjVal? "ops")).mapM entryOfJson
+    let some parent := specs[from_]? | throw "derived spec names a spec that does not exist"
+    specs := specs.push (parent ++ ops.map (·.kind))
+  if !(specs.toList.all (·.all Kind.wf)) then
+    return Json.mkObj [("skip", true), ("why", "stage arguments outside the modelled domain")]
+  let streamsJ ← arr (← j.getObjVal? "streams")
+  let streams ← streamsJ.mapM fun sj => do
+    let si ← sj.getObjValAs? Nat "spec"
+    let some kinds := specs[si]? | throw "stream names a spec that does not exist"
+    let src ← srcOfJson (← sj.getObjVal? "src")
+    let modeJ ← sj.getObjVal? "mode"
+    return (kinds, src, modeJ)
+  let srcs : List Src := streams.map (·.2.1)
+  let srcsFin : List (List V × Option Err) := srcs.map fun s => match s with
+    | .fin xs tail => (xs, tail)
+    | .inf _ => ([], none)
+  let evsJ ← arr (← j.getObjVal? "events")
+  let evs ← evsJ.mapM fun ej => do
+    match ← arr ej with
+    | [.str "open", n] =>
+      let i ← n.getNat?
+      let some (kinds, _, _) := streams[i]? | throw "event names a stream that does not exist"
+      return Ev.open i kinds i
+    | [.str "next", n] => return Ev.next (← n.getNat?)
+    | [.str "run", n] =>
+      let i ← n.getNat?
+      let some (kinds, _, modeJ) := streams[i]? | throw "event names a stream that does not exist"
+      match modeJ with
+      | .str "all" => return Ev.all i kinds i
+      | _ => return Ev.first i kinds i (← firstKey modeJ)
+    | _ => throw s!"bad event {ej.compress}"
+  let impl ← j.getObjVal? "impl"
+  let obsJ ← arr (← impl.getObjVal? "events")
+  if obsJ.length != evs.length then throw "number of observations differs from the number of events"
+  let iObs ← (evs.zip obsJ).mapM fun (e, o) => evObsOfJson e o
+  let mOut := (World.empty.run srcs FUEL evs).2.map (·.2)
+  if mOut.any EvOut.isOof then
+    return Json.mkObj [("skip", true), ("why", "model ran out of fuel")]
+  let mObs := mOut.map EvOut.obs
+  let agree := (evs.zip (mObs.zip iObs)).all fun (e, a, b) => evAgree e a b
+  let holds := checkStreams srcsFin evs iObs (fun _ => none)
+  let nlive := (evs.filter fun e => match e with | .open _ _ _ => true | _ => false).length
+  return Json.mkObj [
+    ("agree", agree), ("holds", holds),
+    ("model", Json.mkObj [("events", Json.arr (mObs.map evObsToJson).toArray)]),
+    ("branch", s!"streams-{nlive}-{specs.size}"),
+    ("why", if holds then "" else "a stream does not yield what it yields when it is run alone (the composition of its stages over its own source)")]
+
+/-! ### boltons' helpers, as written -/
+
+open Glom.C17.Boltons in
+/-- `k` calls of `next()` on a generator model: what each gave, and the position of the source after it -/
+def genEvents {σ : Type} (next : σ → Res × σ) (posOf : σ → Nat) : Nat → σ → List EvObs
+  | 0, _ => []
+  | k + 1, g =>
+    match next g with
+    | (.item v, g') => .item v (posOf g') :: genEvents next posOf k g'
+    | (.eof, g') => [.eof (posOf g')]
+    | (.err e, g') => [.err e (posOf g')]
+    | (.oof, _) => [.dead]
+
+open Glom.C17.Boltons in
+def runBoltons (j : Json) : Except String Json := do
+  let e ← entryOfJson (← j.getObjVal? "op")
+  let src ← srcOfJson (← j.getObjVal? "src")
+  let k ← j.getObjValAs? Nat "k"
+  let impl ← j.getObjVal? "impl"
+  if !e.kind.wf then
+    return Json.mkObj [("skip", true), ("why", "stage arguments outside the modelled domain")]
+  -- the model: (outcome of the call itself, pulls by the call, events)
+  let (mInit, mInitPulls, mEvents) : (Option Err × Nat × List EvObs) := match e.kind with
+    | .chunked size fill => (none, 0, genEvents (chunkedNext src size fill) (·.pos) k ⟨0, false⟩)
+    | .unique key => (none, 0, genEvents (uniqueNext src key FUEL) (·.pos) k ⟨0, [], false⟩)
+    | .split sep m => (none, 0, genEvents (splitNext src sep m FUEL) (·.pos) k ⟨0, [], 0, false⟩)
+    | .windowed size =>
+      (match windowedInit src 0 size with
+       | .ok g => (none, g.pos, genEvents (windowedNext src) (·.pos) k g)
+       | .error (err, p) => (some err, p, []))
+    | _ => (some "unsupported", 0, [])
+  if mInit == some "unsupported" then throw "not a boltons helper"
+  let iInit : Option Err := match impl.getObjVal? "init" with
+    | .ok (.str _) => none
+    | .ok o => (match o.getObjValAs? String "raised" with | .ok c => some c | .error _ => some "?")
+    | .error _ => some "?"
+  let iInitPulls ← impl.getObjValAs? Nat "init_pulls"
+  let obsJ ← arr (← impl.getObjVal? "events")
+  let iEvents ← obsJ.mapM fun o => evObsOfJson (.next 0) o
+  let agree := mInit == iInit && mInitPulls == iInitPulls && mEvents.length == iEvents.length &&
+    (mEvents.zip iEvents).all fun (a, b) => evAgree (.next 0) a b
+  return Json.mkObj [
+    ("agree", agree), ("holds", true),
+    ("model", Json.mkObj [("init", match mInit with | none => Json.str "ok" | some c => Json.mkObj [("raised", c)]),
+      ("init_pulls", mInitPulls), ("events", Json.arr (mEvents.map evObsToJson).toArray)]),
+    ("branch", s!"boltons-{e.name}"), ("why", "")]
+
 /-! ### Invoke -/
 
 def kwFnCatalogue (name : String) : Option (V → Except Err (List (String × V))) :=
@@ -492,6 +684,8 @@ def run (j : Json) : Except String Json := do
   match j.getObjValAs? String "kind" with
   | .ok "invoke" => runInvoke j
   | .ok "reuse" => runReuse j
+  | .ok "streams" => runStreams j
+  | .ok "boltons" => runBoltons j
   | _ => runIter j
 
 end Glom.C17.Driver
